@@ -581,6 +581,12 @@ func (ro *RedisOutput) sendRdb(pctx context.Context, reader ChannelReader) error
 		ro.logger.Errorf("send rdb ERROR : runId(%s), offset(%d), size(%d), error(%v)", reader.RunId(), reader.Left(), reader.Size(), errs[0])
 		return err
 	}
+	// replay workers return nil when the replay context is cancelled, leaving
+	// queued entries unapplied: an interrupted replay is not a completed one
+	if err := pctx.Err(); err != nil {
+		ro.logger.Errorf("send rdb interrupted : runId(%s), offset(%d), size(%d), error(%v)", reader.RunId(), reader.Left(), reader.Size(), err)
+		return err
+	}
 	ro.logger.Debugf("send rdb OK : runId(%s), offset(%d), size(%d)", reader.RunId(), reader.Left(), reader.Size())
 	if ro.bisyncEnabled() {
 		ro.bisyncOffset.Store(reader.Left())
